@@ -14,6 +14,9 @@ import calendar_oracle as CAL
 
 
 def run(ctx):
+    from rules import shared
+    ctx.include('month_records', shared.month_records)   # leap table, solstice anchor, month memo, memo cells (shared, cached per source hash)
+    ctx.include('jd_tables', shared.jd_tables)           # civil date <-> day number per (year, month) (shared, cached per source hash)
     p = ctx.prog
     I = ctx.interp(fuel=200000000)
     t = T(I)
@@ -93,15 +96,6 @@ def run(ctx):
     table(ctx, 'PETE-SCENARIO', 'LunarDay::get_solar_day', [(k, d) for k in range(len(inner)) for d in range(1, inner[k]['count'] + 1)], l2s,
           lambda x: (inner[x[0]]['first'] + x[1] - 1, (inner[x[0]]['year'], inner[x[0]]['month'], x[1])), 'lunar -> civil -> lunar is the identity for every valid lunar date',
           lambda x: '%s-%s-%d' % (inner[x[0]]['year'], inner[x[0]]['month'], x[1]), fn_site(p, 'LunarDay::get_solar_day'))
-
-    # ---- the month records: solstice-month anchoring (model rule)
-    from rules import c03
-    try:
-        tbl = c03.table_rules(ctx, ctx.interp(), 'C02')
-        if tbl is not None:
-            c03.anchor_rule(ctx, tbl)
-    except Unanalysable as u:
-        ctx.unanalysable('MODEL-ANCHOR', 'MODEL:LunarMonth::new:solstice-month', str(u))
 
     ctx.assumptions.append('scenario month records tile by construction; whether the REAL records tile is C03 (numeric)')
     ctx.not_decided.append('bijection on the real calendar: it additionally needs the real month records to abut; they are known NOT to at the lunar year boundaries 8/9, 24/25 and 239/240 '
